@@ -111,3 +111,4 @@ func run(prop, tier string, fn propFn, replayRK string) (code int) {
 	}
 	return c.finish()
 }
+
